@@ -282,8 +282,13 @@ def reset_clears(facts, struct, member, rfn):
     for f in cands + [rfn]:
         body = ir.stmts(f["body"])
         if f is rfn:
-            # only statements before the loop
-            body = [s for s in body if s.get("k") not in ("While", "For", "Do")][:12]
+            # only statements before the loop (which may sit inside an `if (indef) .. else ..` when there is one loop per form)
+            pre = []
+            for s in body:
+                if any(x.get("k") in ("While", "For", "Do") for x in ir.walk(s)):
+                    break
+                pre.append(s)
+            body = pre[:12]
         for s in body:
             for n in ir.walk(s):
                 if n.get("k") == "OpCall" and n.get("op") == "=" and len(n.get("args", [])) == 2 and path(n["args"][0]) == ("this", member):
